@@ -868,6 +868,56 @@ var advFamilies = []advFamily{
 		return fmt.Sprintf("func g(){ i = 0; while i < %d { i = i + 1 } }; while 1 { g() }", 1+n%400)
 	}},
 	{name: "kh-loop", build: func(n, m, k int) string { return "x = [1..512]; while 1 { y = x.kh(500) }" }},
+	// a huge count handed to a method or operator that works on a small container: the work follows the container
+	{name: "method-big-arg", build: func(n, m, k int) string {
+		arr := []string{"[1.5, 2]", "[1, 2]", "[2, 1.5, 3]", "[1..5]", "[0.5]", "[]", "['a', 1.5]"}[m%7]
+		N := big(n)
+		switch k % 12 {
+		case 0:
+			return fmt.Sprintf("%s.kh(%s)", arr, N)
+		case 1:
+			return fmt.Sprintf("%s.kl(%s)", arr, N)
+		case 2:
+			return fmt.Sprintf("%s.randSize(%s)", arr, N)
+		case 3:
+			return fmt.Sprintf("%s * %s", arr, N)
+		case 4:
+			return fmt.Sprintf("'ab' * %s", N)
+		case 5:
+			return fmt.Sprintf("x = %s; x[0:%s]", arr, N)
+		case 6:
+			return fmt.Sprintf("x = %s; x[-%s:%s]", arr, N, N)
+		case 7:
+			return fmt.Sprintf("x = %s; x.kh(%s) + x.kl(%s)", arr, N, N)
+		case 8:
+			return fmt.Sprintf("x = %s; i = 0; while i < 3 { y = x.kh(%s); i = i + 1 }; y", arr, N)
+		case 9:
+			return fmt.Sprintf("%s.kh(-%s)", arr, N)
+		case 10:
+			return fmt.Sprintf("x = %s; x[0:%s] = [1]; x", arr, N)
+		}
+		return fmt.Sprintf("'abc'[0:%s]", N)
+	}},
+	// prototype chains with a cycle that the dict being read is not part of: a missing attribute walks the chain
+	{name: "proto-cycle", build: func(n, m, k int) string {
+		cyc := 1 + n%4 // dicts on the cycle
+		lead := m % 4  // dicts between the one that is read and the cycle
+		var sb strings.Builder
+		for i := 0; i < cyc; i++ {
+			fmt.Fprintf(&sb, "c%d = {'v%d': %d}; ", i, i, i)
+		}
+		for i := 0; i < cyc; i++ {
+			fmt.Fprintf(&sb, "c%d.__proto__ = c%d; ", i, (i+1)%cyc)
+		}
+		prev := "c0"
+		for i := 0; i < lead; i++ {
+			fmt.Fprintf(&sb, "l%d = {'__proto__': %s}; ", i, prev)
+			prev = fmt.Sprintf("l%d", i)
+		}
+		fmt.Fprintf(&sb, "a = {'__proto__': %s}; ", prev)
+		return sb.String() + []string{"a.foo", "a.v0", "a.foo()", "a['foo']", "x = a.foo ?? 1; x", "a.foo = 1; a.foo", "dir(a)", "a.len()", "[a.foo, a.bar]",
+			"i = 0; while i < 3 { y = a.foo; i = i + 1 }; y"}[k%10]
+	}},
 	// each round turns a string into 512 copies of itself through toStr/repr of an array
 	{name: "tostr-rounds", avoid: "tostr_growth", build: func(n, m, k int) string {
 		fn := []string{"toStr", "repr"}[k%2]
